@@ -43,6 +43,10 @@ pub struct Profile {
     /// ROLLBACK or a vanishing client - right after it, without another statement (finding V1)
     #[serde(default)]
     pub zombie_sessions: bool,
+    /// new rows often take the UNIQUE key of a row whose insert was rolled back or failed
+    /// (the index entry such an insert leaves behind must not block or hide later rows: finding U1)
+    #[serde(default)]
+    pub reuse_dead_keys: bool,
     /// every text value is padded to exactly this many bytes (uniform cell sizes, several pages of data)
     pub pad_text: usize,
     /// a burst of this many autocommit reads somewhere in the history: each logs BEGIN/COMMIT/END,
@@ -89,6 +93,7 @@ impl Profile {
             big_text: false,
             exotic_text: false,
             zombie_sessions: false,
+            reuse_dead_keys: false,
             pad_text: 0,
             read_burst: 0,
             ddl_rich: false,
@@ -116,7 +121,6 @@ pub fn default_guards() -> Vec<String> {
         "failing_multi_row_statement_in_session", // D23
         "update_on_table_with_unique_index",     // D7
         "delete_of_updated_row_in_multi_statement_txn", // D25
-        "collision_with_key_of_rolled_back_insert", // U1
         "unique_key_reuse_while_session_open",   // U2
         "arithmetic_update_on_indexed_table",    // D24
         "statement_in_session_after_vacuum_aborted_it", // V1
@@ -264,7 +268,20 @@ impl Gen {
     }
 
     fn gen_row(&mut self, ti: usize) -> Vec<Val> {
-        let r = self.gen_row_inner(ti);
+        let mut r = self.gen_row_inner(ti);
+        if self.p.reuse_dead_keys && self.rng.chance(50) {
+            let t = &self.model.tables[ti];
+            let dead: Vec<&crate::model::RowM> = t.rows.iter().filter(|x| self.model.txs[x.creator].status == TxStatus::Aborted && !x.versions.is_empty()).collect();
+            if !dead.is_empty() && !t.uniques.is_empty() {
+                let d = dead[self.rng.below(dead.len() as u64) as usize];
+                let u = &t.uniques[self.rng.below(t.uniques.len() as u64) as usize];
+                for c in &u.cols {
+                    if *c < r.len() && *c < d.versions[0].vals.len() {
+                        r[*c] = d.versions[0].vals[*c].clone();
+                    }
+                }
+            }
+        }
         if self.p.pad_text > 0 {
             // uniform cell sizes: no NULLs at all
             let t = self.model.tables[ti].clone();
